@@ -8,6 +8,12 @@ import Ivg.Gen.Tie.RendererFields
 import Ivg.Gen.Tie.Code.RenderRegs
 import Ivg.Gen.Tie.Code.Retarget
 import Ivg.Gen.Tie.Code.Resolve
+import Ivg.Gen.Tie.Code.Encoder
+import Ivg.Gen.Tie.Code.Encoder2
+import Ivg.Gen.Tie.Code.Encoder3
+import Ivg.Gen.Tie.Code.Encoder4
+import Ivg.Gen.Tie.Code.Encoder5
+import Ivg.Gen.Tie.Code.Encoder6
 import Ivg.Obligations
 /-!
 # C17 — the output of an Encoder / Renderer depends only on the calls since its last Reset
@@ -255,4 +261,63 @@ end Ivg.Props.C17
   Ivg.Gen.Tie.color_Resolve_code_tie,
   Ivg.Gen.Tie.color_Resolve_code_tie_badTyp,
   Ivg.Gen.Tie.renderer_SetCReg_code_tie,
-  Ivg.Gen.Tie.renderer_SetCReg_code_tie']
+  Ivg.Gen.Tie.renderer_SetCReg_code_tie',
+  -- regenerated code (translator): the whole encode.Encoder (every method except SetNReg) = the model's Encoder.step, through the representation encOf / WFEnc
+  Ivg.Gen.Tie.drawOps_code_tie_all,
+  Ivg.Gen.Tie.drawOps_code_tie,
+  Ivg.Gen.Tie.errDrawingOpsUsedInStylingMode_code_tie,
+  Ivg.Gen.Tie.errInvalidSelectorAdjustment_code_tie,
+  Ivg.Gen.Tie.errInvalidIncrementingAdjustment_code_tie,
+  Ivg.Gen.Tie.errStylingOpsUsedInDrawingMode_code_tie,
+  Ivg.Gen.Tie.encodeError_Error_code_tie,
+  Ivg.Gen.Tie.positiveInfinity_code_tie_enc,
+  Ivg.Gen.Tie.negativeInfinity_code_tie_enc,
+  Ivg.Gen.Tie.appendDefaultMetadata_code_tie,
+  Ivg.Gen.Tie.cSel_code_tie,
+  Ivg.Gen.Tie.nSel_code_tie,
+  Ivg.Gen.Tie.lOD_code_tie,
+  Ivg.Gen.Tie.checkModeStyling_code_tie,
+  Ivg.Gen.Tie.setCSel_code_tie,
+  Ivg.Gen.Tie.setNSel_code_tie,
+  Ivg.Gen.Tie.setLOD_code_tie,
+  Ivg.Gen.Tie.encoder_startPath_code_tie,
+  Ivg.Gen.Tie.setCReg_code_tie,
+  Ivg.Gen.Tie.flushDrawOps_code_tie,
+  Ivg.Gen.Tie.draw_code_tie,
+  Ivg.Gen.Tie.draw_code_tie',
+  Ivg.Gen.Tie.encoder_absHLineTo_code_tie,
+  Ivg.Gen.Tie.encoder_relHLineTo_code_tie,
+  Ivg.Gen.Tie.encoder_absVLineTo_code_tie,
+  Ivg.Gen.Tie.encoder_relVLineTo_code_tie,
+  Ivg.Gen.Tie.encoder_absLineTo_code_tie,
+  Ivg.Gen.Tie.encoder_relLineTo_code_tie,
+  Ivg.Gen.Tie.encoder_absSmoothQuadTo_code_tie,
+  Ivg.Gen.Tie.encoder_relSmoothQuadTo_code_tie,
+  Ivg.Gen.Tie.encoder_closePathAbsMoveTo_code_tie,
+  Ivg.Gen.Tie.encoder_closePathRelMoveTo_code_tie,
+  Ivg.Gen.Tie.encoder_absQuadTo_code_tie,
+  Ivg.Gen.Tie.encoder_relQuadTo_code_tie,
+  Ivg.Gen.Tie.encoder_absSmoothCubeTo_code_tie,
+  Ivg.Gen.Tie.encoder_relSmoothCubeTo_code_tie,
+  Ivg.Gen.Tie.encoder_absCubeTo_code_tie,
+  Ivg.Gen.Tie.encoder_relCubeTo_code_tie,
+  Ivg.Gen.Tie.encoder_closePathEndPath_code_tie,
+  Ivg.Gen.Tie.arcTo_code_tie,
+  Ivg.Gen.Tie.absArcTo_code_tie,
+  Ivg.Gen.Tie.relArcTo_code_tie,
+  Ivg.Gen.Tie.bytes_code_tie,
+  Ivg.Gen.Tie.setCSel_code_tie_state,
+  Ivg.Gen.Tie.setNSel_code_tie_state,
+  Ivg.Gen.Tie.setCReg_code_tie_state,
+  Ivg.Gen.Tie.setLOD_code_tie_state,
+  Ivg.Gen.Tie.encoder_startPath_code_tie_state,
+  Ivg.Gen.Tie.cSel_code_tie_state,
+  Ivg.Gen.Tie.nSel_code_tie_state,
+  Ivg.Gen.Tie.lOD_code_tie_state,
+  Ivg.Gen.Tie.draw_code_tie_state,
+  Ivg.Gen.Tie.bytes_code_tie_state,
+  Ivg.Gen.Tie.reset_code_tie,
+  Ivg.Gen.Tie.reset_code_tie_state,
+  Ivg.Gen.Tie.wfEnc_init,
+  Ivg.Gen.Tie.wfEnc_step,
+  Ivg.Gen.Tie.wfEnc_runOps]
